@@ -29,7 +29,12 @@ def run_mutant(m, tier, shards, seed, keep_log, save_replays=False):
                         ignore=shutil.ignore_patterns("__pycache__"))
         if "patch" in m:
             patch = m["patch"] if os.path.isabs(m["patch"]) else os.path.join(VERIF, m["patch"])
-            rc = subprocess.call(["patch", "-p1", "-s", "-d", root, "-i", patch])
+            # only the library part of the patch (a seeded change may also add a test file)
+            parts = open(patch).read().split("diff --git ")
+            kept = "".join("diff --git " + part for part in parts[1:] if part.startswith("a/hvsrpy/"))
+            lib_patch = os.path.join(root, "library-only.diff")
+            open(lib_patch, "w").write(kept)
+            rc = subprocess.call(["patch", "-p1", "-s", "-d", root, "-i", lib_patch])
             if rc != 0:
                 return dict(m, status="patch-failed", wall=0)
         else:
